@@ -580,9 +580,11 @@ impl<'a> SamplerRun<'a> {
         // chord deficit of the flattening w.r.t. the curve: ≤ 4·tol per flattened curved edge
         let deficit = if self.curved { 4.0 * self.tol.max(1e-4) as f64 * coarse.iter().filter(|e| e.curved).count() as f64 } else { 0.0 };
         let longest = coarse.iter().filter(|e| e.curved).map(|e| e.s1 - e.s0).fold(0.0, f64::max);
-        o.t("len").f(len).t("alen").f(alen);
-        if !self.curved {
-            o.t("edges").u(count_table_entries(self.cmds));
+        if self.curved {
+            // table entries: Begin, Line, closing End, and one per flattened line of each curve
+            o.t("len").f(len).t("edges").u(count_table_entries(self.cmds) - self.cmds.iter().filter(|c| matches!(c, Cmd::Q(..) | Cmd::C(..))).count() as u64 + coarse.iter().filter(|e| e.curved).count() as u64);
+        } else {
+            o.t("len").f(len).t("alen").f(alen).t("edges").u(count_table_entries(self.cmds));
         }
 
         // --- length identities
